@@ -27,6 +27,10 @@ def main():
     for fn in sorted(os.listdir(spec)):
         if not fn.endswith(".tla"):
             continue
+        if fn.endswith("Proofs.tla"):
+            # TLAPS proof modules import the proof system's own library (TLAPS, SequenceTheorems): they are parsed and checked
+            # by tlapm inside the C17 check, not by SANY
+            continue
         r = subprocess.run(["java", "-cp", "/opt/veriftools/tla/tla2tools.jar:/opt/veriftools/tla/CommunityModules-deps.jar",
                             "tla2sany.SANY", fn], cwd=spec, stdout=subprocess.PIPE, stderr=subprocess.STDOUT, text=True)
         if r.returncode != 0 or "rror" in r.stdout.replace("Semantic errors", "") and "*** Errors" in r.stdout:
@@ -34,6 +38,11 @@ def main():
             print(r.stdout[-800:])
             bad += 1
     print("spec modules parsed, failures:", bad)
+    try:        # optional: only the two TLAPS proofs re-run by C17 need it (they are skipped with a note when it is absent)
+        r = subprocess.run(["tlapm", "--version"], stdout=subprocess.PIPE, stderr=subprocess.STDOUT, text=True)
+        print("tlapm:", (r.stdout.strip().splitlines() or ["?"])[0])
+    except OSError as e:
+        print("tlapm not available:", e)
     os.makedirs(os.path.join(HERE, "evidence"), exist_ok=True)
     os.makedirs(os.path.join(HERE, "replay"), exist_ok=True)
     sys.exit(0 if ok and bad == 0 else 1)
